@@ -55,8 +55,10 @@ void exportIspdNets(const Circuit &circuit, const std::string &filename) {
     for (int j = 0; j < circuit.nbPinsNet(i); ++j) {
       int c = circuit.pinCell(i, j);
       f << "\to" << c << " I : ";
-      double x = circuit.pinXOffset(i, j) - 0.5 * circuit.cellWidth_[c];
-      double y = circuit.pinYOffset(i, j) - 0.5 * circuit.cellHeight_[c];
+      // Offsets from the center of the cell in its reference orientation
+      int pin = circuit.netLimits_[i] + j;
+      double x = circuit.pinXOffsets_[pin] - 0.5 * circuit.cellWidth_[c];
+      double y = circuit.pinYOffsets_[pin] - 0.5 * circuit.cellHeight_[c];
       f << x << " " << y << "\n";
     }
   }
